@@ -60,6 +60,8 @@ def market_settings(draw, name: str, vol_zero: Optional[bool] = None, ticks=TICK
     d["fundamentalDrift"] = draw(st.sampled_from([0.0, 0.0, 0.001, -0.002]))
     if draw(st.integers(0, 3)) == 0:
         d["fundamentalPrice"] = draw(st.sampled_from(PRICES))
+    if draw(st.integers(0, 4)) == 0:
+        d["tradeVolume"] = draw(st.sampled_from([10, 90]))  # a documented optional key of Market.setup; statistics start empty all the same
     return d
 
 
@@ -118,6 +120,13 @@ def sim_cases(draw, n_markets=(1, 3), index_prob=2, vol_zero=None, ticks=TICKS, 
                       "markets": comps}
         cfg["simulation"]["markets"].append("IDX")
         all_markets.append("IDX")
+        if draw(st.integers(0, 3)) == 0:
+            # an index of indices (listed after its component index, the only order pams supports)
+            cfg["IDX"]["outstandingShares"] = draw(st.sampled_from([10, 500]))
+            cfg["IDX2"] = {"class": "IndexMarket", "tickSize": draw(st.sampled_from(ticks)), "marketPrice": draw(st.sampled_from(PRICES)),
+                           "markets": ["IDX", draw(st.sampled_from(names))]}
+            cfg["simulation"]["markets"].append("IDX2")
+            all_markets.append("IDX2")
     if correlations:
         volm = [n for n in names if cfg[n]["fundamentalVolatility"] > 0]
         if len(volm) >= 2 and draw(st.booleans()):
@@ -157,6 +166,11 @@ def sim_cases(draw, n_markets=(1, 3), index_prob=2, vol_zero=None, ticks=TICKS, 
                 evs.append(en)
             ses["events"] = evs
         cfg["simulation"]["sessions"].append(ses)
+    if ns >= 2 and draw(st.integers(0, 5)) == 0:
+        # a session of zero steps (e.g. a break): it still begins and ends, its hooks still fire, the clock does not move
+        cfg["simulation"]["sessions"][draw(st.integers(0, ns - 1))]["iterationSteps"] = 0
+        if all(s_["iterationSteps"] == 0 for s_ in cfg["simulation"]["sessions"]):
+            cfg["simulation"]["sessions"][0]["iterationSteps"] = 1
     if rules and draw(st.booleans()):
         # a shipped circuit breaker around the same traffic: fills that stop a market in the middle of a round
         targets = draw(st.lists(st.sampled_from(names), min_size=1, max_size=len(names), unique=True))
